@@ -109,7 +109,7 @@ def describe(v, attr=None):
     if isinstance(v, R):
         return desc("rotation", () if v.single else (len(v),))
     if callable(v):
-        return desc("callable", (), getattr(v, "c17_label", "unknown"))
+        return desc("callable", (), getattr(v, "c17_B", "unknown"), getattr(v, "c17_H", "na"))
     if isinstance(v, (list, tuple, np.ndarray)):
         shape, leaves = _shape_leaves(v)
         if shape is None:
@@ -222,29 +222,37 @@ def _nest(flat, shape, seq):
     return seq(_nest(flat[i * step:(i + 1) * step], shape[1:], seq) for i in range(shape[0]))
 
 
-def make_callable(label, r):
+CALL_ANS = ("none", "ok", "shape1", "shape2", "list", "raises")
+
+
+def make_callable(ans_b, ans_h, r):
+    """A field function described by its answer per field (Inputs.tla: entries = answer for B, geom = answer for H)."""
     c = round(r.uniform(0.5, 2.0), 3)
-    if label == "good":
-        def f(field, observers):
-            return np.array(observers, dtype=float) * c
-    elif label == "none_ret":
-        def f(field, observers):
+
+    def answer(kind, observers):
+        obs = np.array(observers, dtype=float)
+        if kind == "none":
             return None
-    elif label == "badargs":
+        if kind == "ok":
+            return obs * c
+        if kind == "shape1":
+            return obs[:, 0] * c
+        if kind == "shape2":
+            return obs[:, :2] * c
+        if kind == "list":
+            return (obs * c).tolist()
+        raise ZeroDivisionError("user function fails")
+
+    if ans_b == "badargs":
         def f(a, b):
             return np.array(b, dtype=float) * c
-    elif label == "badshape":
+        ans_h = "na"
+    elif ans_b in CALL_ANS and ans_h in CALL_ANS:
         def f(field, observers):
-            return np.array(observers, dtype=float)[:, :2] * c
-    elif label == "badtype":
-        def f(field, observers):
-            return [[c, c, c] for _ in observers]
-    elif label == "raises":
-        def f(field, observers):
-            raise ZeroDivisionError("user function fails")
+            return answer(ans_b if field == "B" else ans_h, observers)
     else:
-        raise MachineryError(label)
-    f.c17_label = label
+        raise MachineryError(f"callable {ans_b}/{ans_h}")
+    f.c17_B, f.c17_H = ans_b, ans_h
     return f
 
 
@@ -278,7 +286,7 @@ def concretize(cls, attr, d, k, r):
             return R.from_quat(np.zeros((0, 4))), "Rotation"
         return R.from_rotvec([[r.uniform(-1, 1) for _ in range(3)] for _ in range(shape[0])]), "Rotation"
     if kind == "callable":
-        return make_callable(ent, r), "function"
+        return make_callable(ent, geom, r), "function"
     if kind == "object":
         return (object(), "object") if k % 2 == 0 else ({"a": 1}, "dict")
     if kind == "ragged":
@@ -335,7 +343,7 @@ def clone(v):
 
 # ------------------------------------------------------------------------------------------ objects
 def base_kwargs(cls):
-    good = make_callable("good", rng("c17-base"))
+    good = make_callable("ok", "ok", rng("c17-base"))
     return {
         "Cuboid": {"dimension": (1.0, 2.0, 3.0), "polarization": (0.1, 0.2, 0.3)},
         "Cylinder": {"dimension": (1.0, 2.0), "polarization": (0.1, 0.2, 0.3)},
@@ -433,6 +441,8 @@ def later_of(cls, obj):
         calls = [lambda: m.getB(obj, OBS)]
     else:
         calls = [lambda: m.getB(obj, OBS), lambda: m.getB([comp, obj], OBS), lambda: m.getB([obj, comp], OBS)]
+        if cls == "CustomSource":       # the function answers per field: the H-field is asked for as well
+            calls += [lambda: m.getH(obj, OBS), lambda: m.getH([comp, obj], OBS)]
     rank = {"ok": 0, "magpylib": 1, "nonfinite": 2, "foreign": 3}
     worst, worst_exc = "ok", ""
     for call in calls:
@@ -626,7 +636,7 @@ def mutants(value, r, every_axis):
 def relevant(attr, d):
     """Mirror of MC_Inputs!Relevant (cross-checked through the number of triples)."""
     forced = d["kind"] == "array" and d["entries"] == "zero" and int(np.prod(d["shape"])) == 1
-    return (d["geom"] in ("na", "ok") or attr in ("dimension", "vertices")) and (attr == "faces" or d["ints"] == forced) and (d["entries"] != "oob" or attr == "faces")
+    return (d["kind"] != "array" or d["geom"] in ("na", "ok") or attr in ("dimension", "vertices")) and (attr == "faces" or d["ints"] == forced) and (d["entries"] != "oob" or attr == "faces")
 
 
 def dkey(d):
